@@ -112,6 +112,9 @@ func (w *Wallet) getActiveKeyset(mintURL string) (*crypto.WalletKeyset, error) {
 	if activeChanged {
 		// inactivate previous active
 		activeKeyset.Active = false
+		// the counter in the keyset held in memory could be outdated,
+		// get the latest one from the db so that it is not overwritten
+		activeKeyset.Counter = w.db.GetKeysetCounter(activeKeyset.Id)
 		mint.inactiveKeysets[activeKeyset.Id] = activeKeyset
 		if err := w.db.SaveKeyset(&activeKeyset); err != nil {
 			return nil, err
@@ -156,6 +159,7 @@ func (w *Wallet) getActiveKeyset(mintURL string) (*crypto.WalletKeyset, error) {
 		// check if input_fee_ppk changed for current active
 		if activeInputFeePpk != activeKeyset.InputFeePpk {
 			activeKeyset.InputFeePpk = activeInputFeePpk
+			activeKeyset.Counter = w.db.GetKeysetCounter(activeKeyset.Id)
 			if err := w.db.SaveKeyset(&activeKeyset); err != nil {
 				return nil, err
 			}
